@@ -3,7 +3,7 @@
     [list Z]; running it yields one [list Z] per operation.  All decoding/encoding is done here, in
     Gallina, so the OCaml driver is a dumb pipe. *)
 From Coq Require Import QArith.
-From DynVerif Require Import Base Graph Derived Annotate Paths IO Stats Conformity.
+From DynVerif Require Import Base Graph Derived Annotate Paths IO Stats Conformity Names.
 #[local] Open Scope Z_scope.
 
 Definition oz (has x : Z) : option Z := if has =? 0 then None else Some x.
@@ -236,6 +236,16 @@ Definition step_op (rs : regs) (op : list Z) : regs * list Z :=
   | 65 :: _ => (rs, [1])
   | 63 :: l => (rs, enc_annotated (annotate_paths (dec_paths (S (length l)) l)))
   | 64 :: l => (rs, flat_pairs (compact_timeslot l))
+  (* occurrence names: [66; t; |u|; u...; v...] -> name of (u,t), name of (v,t), node decoded from the first,
+     (node, time) decoded from the second; each text as length :: codes *)
+  | 66 :: t :: nu :: l =>
+      let u := firstn (Z.to_nat nu) l in
+      let v := skipn (Z.to_nat nu) l in
+      let enc := fun (x : line) => Z.of_nat (length x) :: x in
+      (rs, enc (occ_name u t) ++ enc (occ_name v t) ++
+           (match decode_name (occ_name u t) with Some (n, _) => 1 :: enc n | None => [0] end) ++
+           (match decode_name (occ_name v t) with Some (n, t') => 1 :: t' :: enc n | None => [0] end) ++
+           (match name_node (occ_name v t) with Some n => 1 :: enc n | None => [0] end))
   (* --- readers / writers --- *)
   | 70 :: r :: _ => (rs, flat_map (fun x => [fst (fst x); snd (fst x); snd x]) (gen_snapshots (getr rs r)))
   | 71 :: dst :: dir :: l =>
